@@ -198,6 +198,10 @@ def run(tier='quick'):
     K10 = chk.rule('K10', 'the membership operations rely on the transaction guard (add / remove are several statements; a rejected one must leave no partial membership and no transaction open): the guard begins, commits - setting its flag only after COMMIT succeeded - and rolls back exactly when not committed', floor=4)
     from . import c14 as _c14g
     _c14g._guard_shape(prog, eff, chk, K10)
+    K11 = chk.rule('K11', 'the rows a DELETE / UPDATE of the library touches are selected by equality on keys, never by LIKE / '
+                          'GLOB against a bound or computed pattern (case-insensitive, _ and % are wildcards: memberships of '
+                          'other crates whose names merely resemble the pattern would go as well)', floor=20)
+    extra.no_pattern_match_in_writes(prog, cg, eff, chk, K11)
     return chk.finish('value-flow interpretation of the membership operations of both implementations '
                       '(id kinds of bound values, event order), reference graph and triggers read from the DDL '
                       'of every schema version')
